@@ -6,7 +6,7 @@
 (* The implementation-shaped world (handles + _active_timer) must refine the functional  *)
 (* definition Handle() used by the monitor.                                              *)
 EXTENDS Integers, Sequences, FiniteSets, TLC, Json
-CONSTANTS CancelOnExit, FiredTimerCleared, MaxNow, Tables, MaxLevel, MinStop
+CONSTANTS CancelOnExit, FiredTimerCleared, RestoreTimerFirst, StartMode, MaxNow, Tables, MaxLevel, MinStop
 N == 2
 M == 2
 VARIABLES cfg, w, tm, now, inited, fired, stale, stopped, dead, hist
@@ -39,10 +39,20 @@ Apply(wn, r) == /\ w' = Norm(wn) /\ tm' = r.tm
                 /\ UNCHANGED <<cfg, now, stopped>>
 
 (* initialisation: Goto(initdef) on the uninitialised FSM *)
-Start == /\ ~inited /\ ~dead /\ ~stopped
+Start == /\ ~inited /\ ~dead /\ ~stopped /\ StartMode # "restore"
          /\ Apply(F!IEnter(cfg, w, cfg.init, ABSENTV, now, FALSE, 0, FALSE),
                   F!Enter(cfg, cfg.init, ABSENTV, now, FALSE, 0, FALSE))
          /\ UNCHANGED <<fired, stale, hist>>
+
+(* ... or a start from a saved state (any state, timer with 1..2 ticks left or none), the  *)
+(* output events of the restored state optionally coming back as an event                 *)
+StartRestored ==
+    /\ ~inited /\ ~dead /\ ~stopped /\ StartMode # "fresh"
+    /\ \E s \in 1..N, due \in {0 - 1, now + 1, now + 2}, fb \in {0} \cup (1..M) \cup {101, 102} :
+          /\ (due >= 0) = (cfg.tev[s] # 0)
+          /\ Apply(F!IRestore(cfg, w, s, due, fb, now), F!RestoreFb(cfg, s, due, fb, now))
+          /\ hist' = Append(hist, [op |-> "restore", t |-> now, e |-> fb, d |-> due, c |-> FALSE])
+    /\ UNCHANGED <<fired, stale>>
 
 Ext == /\ inited /\ ~dead /\ ~stopped
        /\ \E ev \in (1..M) \cup {101, 102}, d \in {ABSENTV, 0, 2, INFV}, c \in (IF cfg.echain = <<0, 0>> THEN {FALSE} ELSE BOOLEAN) :
@@ -72,7 +82,7 @@ Stop == /\ ~stopped /\ now >= MinStop
         /\ UNCHANGED <<cfg, now, inited, fired, stale, dead>>
         /\ hist' = Append(hist, [op |-> "stop", t |-> now, e |-> 0, d |-> 0, c |-> FALSE])
 
-Next == Start \/ Ext \/ Fire \/ Tick \/ Stop
+Next == Start \/ StartRestored \/ Ext \/ Fire \/ Tick \/ Stop
 Spec == Init /\ [][Next]_vars
 
 (* at most one timer is pending per FSM, and it is the one the FSM refers to *)
